@@ -119,6 +119,18 @@ pub fn f(x: f64) -> u64 {
 }
 
 pub fn alphabet_by_name(name: &str) -> Alphabet {
+    // "<alphabet>@alias": same operations, equal edge specifications are one shared Arc (see model::ALIAS_MODE)
+    let alias = name.ends_with("@alias");
+    ALIAS_MODE.store(alias, std::sync::atomic::Ordering::Relaxed);
+    let name = name.trim_end_matches("@alias");
+    let mut al = alphabet_plain(name);
+    if alias {
+        al.name = Box::leak(format!("{}@alias", al.name).into_boxed_str());
+    }
+    al
+}
+
+fn alphabet_plain(name: &str) -> Alphabet {
     let n2 = &NAMES3[..2];
     let n3 = &NAMES3[..];
     match name {
